@@ -132,6 +132,10 @@ theorem bins_partition {n : Nat} (hn : n ≠ 0) {φ : α} (h0 : 0 ≤ φ) (h1 : 
   obtain ⟨k, hk, hb⟩ := inBin_exists hn h0 h1
   exact ⟨k, ⟨hk, hb⟩, fun j hj => inBin_unique hn hj.1 hk hj.2 hb⟩
 
+/-- … so the histogram behind `phase_coverage` counts every observation exactly once -/
+theorem hist_total {n : Nat} (hn : n ≠ 0) (l : List α) (hl : ∀ φ ∈ l, 0 ≤ φ ∧ φ ≤ 1) :
+    (hist n l).sum = l.length := hist_total' hn l hl
+
 /-- `max_phase_gap` does not depend on the reference epoch used to fold the observations -/
 theorem circGap_tref_shift (tref tref' P : α) (ts : List α) :
     circGap (ts.map (phase Int.floor tref' P)) = circGap (ts.map (phase Int.floor tref P)) := by
